@@ -396,6 +396,80 @@ fn map_races(rounds: u64) -> Result<String, String> {
     Ok(infos.join("; "))
 }
 
+/// An idle-entry scan (which, under the global lock, takes the key mutex of every unlocked entry for a moment) racing with
+/// the departure of the last other user of a value-less placeholder, here an unpolled `lock_all_entries` stream that
+/// is dropped: whoever goes last has to remove the placeholder. 200 valued entries in front of the placeholder make the
+/// scan long. (Seeded change C04-f: the scan let go of the non-matching entries only after it had released the global lock.)
+fn scan_vs_stream(rounds: u64) -> Result<String, String> {
+    const KEY: u64 = 7;
+    let cache: Arc<LockableLruCache<u64, u64>> = Arc::new(LockableLruCache::new());
+    for k in 1000..1200u64 {
+        cache.blocking_lock(k, SyncLimit::no_limit()).map_err(|_| "err")?.insert(k);
+    }
+    let go = Arc::new(AtomicU64::new(0));
+    let done = Arc::new(AtomicU64::new(0));
+    let stop = Arc::new(AtomicBool::new(false));
+    let scanner = {
+        let (cache, go, done, stop) = (cache.clone(), go.clone(), done.clone(), stop.clone());
+        std::thread::spawn(move || -> Result<(), String> {
+            let mut round = 0u64;
+            loop {
+                round += 1;
+                while go.load(Ordering::SeqCst) < round && !stop.load(Ordering::SeqCst) {
+                    std::hint::spin_loop();
+                }
+                if stop.load(Ordering::SeqCst) {
+                    return Ok(());
+                }
+                let n = cache.lock_entries_unlocked_for_at_least(Duration::from_secs(3600)).count();
+                if n != 0 {
+                    return Err(format!("round {}: {} entries idle for an hour", round, n));
+                }
+                done.store(round, Ordering::SeqCst);
+            }
+        })
+    };
+    let mut result = Ok(());
+    for round in 1..=rounds {
+        let g = cache.blocking_lock_owned(KEY, SyncLimit::no_limit()).map_err(|_| "err")?;
+        let stream = futures::executor::block_on(cache.lock_all_entries_owned());
+        drop(g);
+        go.store(round, Ordering::SeqCst);
+        for _ in 0..(round % 64) * 40 {
+            std::hint::spin_loop();
+        }
+        drop(stream);
+        let t0 = std::time::Instant::now();
+        while done.load(Ordering::SeqCst) < round {
+            if scanner.is_finished() || t0.elapsed() > Duration::from_secs(30) {
+                break;
+            }
+            std::hint::spin_loop();
+        }
+        if done.load(Ordering::SeqCst) < round {
+            result = Err(format!("round {}: the scan did not come back", round));
+            break;
+        }
+        let n = cache.num_entries_or_locked();
+        let keys = cache.keys_with_entries_or_locked();
+        if n != 200 || keys.contains(&KEY) {
+            result = Err(format!(
+                "round {}: nobody holds or awaits key {} and it has no value, but the cache reports {} entries{}",
+                round, KEY, n, if keys.contains(&KEY) { " and lists the key" } else { "" }
+            ));
+            break;
+        }
+    }
+    stop.store(true, Ordering::SeqCst);
+    match scanner.join() {
+        Ok(Ok(())) => {}
+        Ok(Err(e)) => return Err(e),
+        Err(_) => return Err("the scanning thread panicked".into()),
+    }
+    result?;
+    Ok(format!("{} rounds", rounds))
+}
+
 fn wakeup() -> Result<String, String> {
     let map: Arc<LockableHashMap<u64, u64>> = Arc::new(LockableHashMap::new());
     for round in 0..20 {
@@ -444,6 +518,7 @@ fn main() {
     with_watchdog("pool-blocking", 60, move || pool_blocking(iters));
     with_watchdog("pool-try-race", 120, move || pool_try_race(iters * 250));
     with_watchdog("map-races", 180, move || map_races(iters * 100));
+    with_watchdog("scan-vs-stream", 180, move || scan_vs_stream(iters / 4));
     with_watchdog("wakeup", 120, wakeup);
     println!("SMOKE OK");
 }
